@@ -701,6 +701,81 @@ class Checker:
                                'object stored in the index is %s' % (ev[2][2] if len(ev[2]) >= 3 else '?'), line=ev[3])
         rep.floor('R16.9', 'index calls examined', n, 4)
 
+    def metric(self):
+        """R16.11: the cost bookkeeping and the acceptance test measure with the mode that is SET: RRTStar.distance picks the metric from
+        self.dmode on every call and keeps nothing between calls (normal-form equality with the two-branch selection, effects included)."""
+        from ..engine import tv as _tv
+        rep = self.rep
+        rep.rule('R16.11', 'RRTStar.distance = arcDistance when dmode == 1, else distance - decided on every call from the current dmode, nothing remembered')
+        fi = self.rrt.methods.get('distance')
+        if fi is None or len(fi.params) < 3:
+            raise AnalysisError('anchor vanished: RRTStar.distance')
+        p1, p2 = fi.params[1], fi.params[2]
+        try:
+            ok, why = _tv.fi_matches_spec(self.model, fi, """
+                def distance(self, %s, %s):
+                    if self.dmode == 1:
+                        return fsr.arcDistance(%s, %s)
+                    else:
+                        return fsr.distance(%s, %s)
+                """ % (p1, p2, p1, p2, p1, p2))
+        except AnalysisError as ex:
+            ok, why = False, str(ex)
+        if not ok:
+            # the same decided on path summaries (conditional expressions lowered, locals read in place): every path returns the metric that
+            # belongs to the truth of `self.dmode == 1` on that path, stores nothing and tests nothing else
+            from ..engine import peval as _pe16
+            from ..engine.paths import paths_of as _p16
+            flat = _pe16.flatten({}, fi.node, depth=0, impure=True)
+            import copy as _cp16
+
+            class _CallOfChoice(ast.NodeTransformer):
+                # (f if c else g)(args)  ==  f(args) if c else g(args)
+                def visit_Call(s_, n_):
+                    s_.generic_visit(n_)
+                    if isinstance(n_.func, ast.IfExp):
+                        return ast.copy_location(ast.IfExp(test=n_.func.test,
+                                                           body=ast.Call(func=n_.func.body, args=n_.args, keywords=n_.keywords),
+                                                           orelse=ast.Call(func=n_.func.orelse, args=_cp16.deepcopy(n_.args), keywords=_cp16.deepcopy(n_.keywords))), n_)
+                    return n_
+            flat = _CallOfChoice().visit(flat)
+            nb = []
+            for st_ in flat.body:
+                if isinstance(st_, ast.Assign) and isinstance(st_.value, ast.IfExp):
+                    nb.append(ast.copy_location(ast.If(test=st_.value.test, body=[ast.Assign(targets=st_.targets, value=st_.value.body)],
+                                                       orelse=[ast.Assign(targets=_cp16.deepcopy(st_.targets), value=st_.value.orelse)]), st_))
+                elif isinstance(st_, ast.Return) and isinstance(st_.value, ast.IfExp):
+                    nb.append(ast.copy_location(ast.If(test=st_.value.test, body=[ast.Return(value=st_.value.body)], orelse=[ast.Return(value=st_.value.orelse)]), st_))
+                else:
+                    nb.append(st_)
+            flat.body = nb
+            ast.fix_missing_locations(flat)
+            bad = []
+            for pth in _p16(flat, fi.params):
+                st = [e for e in pth.events if e[0] == 'store']
+                if st:
+                    bad.append('stores %s' % st[0][1])
+                    continue
+                mode = None
+                for k_, v_ in pth.facts.items():
+                    kk = k_.replace(' ', '')
+                    if kk in ('self.dmode==1', '1==self.dmode'):
+                        mode = v_
+                    elif kk in ('self.dmode!=1', '1!=self.dmode'):
+                        mode = not v_
+                    else:
+                        bad.append('tests %s' % k_)
+                want = {True: 'fsr.arcDistance(%s,%s)' % (p1, p2), False: 'fsr.distance(%s,%s)' % (p1, p2)}.get(mode)
+                if want is None or pth.ret != want:
+                    bad.append('returns %s when (dmode == 1) is %s' % (pth.ret, mode))
+            if not bad:
+                ok = True
+            else:
+                why = '; '.join(bad[:2])
+        rep.ob('R16.11', fi, 'distance(p1, p2) selects the metric from the current self.dmode', ok,
+               'RRTStar.distance is not the per-call selection between fsr.arcDistance (dmode 1) and fsr.distance: %s - with a metric that is chosen once (or read '
+               'from anything but the current dmode) nodes grown after `dmode` is changed get costs, acceptance decisions and parents under the other metric' % why[:200])
+
     def progress(self):
         rep = self.rep
         rep.rule('R16.7', 'progress display: divisor is >= 1 for every budget >= 1 (or the division is guarded)')
@@ -775,3 +850,4 @@ def check(model, rep):
     ck.index_layout()
     ck.shared_objects()
     ck.progress()
+    ck.metric()
